@@ -80,7 +80,39 @@ def validate_alphabet(interp, args, kwargs):
         interp.summaries["sequence.sequence.Sequence.validate_alphabet"] = saved
 
 
+def bins_summary(interp, args, kwargs):
+    """Contract of util.bins.bins (proved for the real body by the C16 cases): one=True -> the UCSC bin formula."""
+    from .c16_bins import spec_bin, out_of_range, LEVEL_OFFSETS, WIDTHS
+    from pyvc.symex_eval import MSet
+    from pyvc.spec import Div
+    start, stop = args[0], args[1]
+    fmt = kwargs.get("fmt", args[2] if len(args) > 2 else "gff")
+    one = kwargs.get("one", args[3] if len(args) > 3 else True)
+    if not isinstance(fmt, str) or not isinstance(one, bool):
+        raise Unsupported("bins summary: symbolic fmt/one")
+    off = {"bed": 0, "gff": 1}[fmt]
+    if isinstance(start, int) and isinstance(stop, int):
+        f = interp.repo.find("util.bins.bins")
+        saved = interp.summaries.pop("util.bins.bins")
+        try:
+            return interp.call_function(FuncVal(f), list(args), kwargs)
+        finally:
+            interp.summaries["util.bins.bins"] = saved
+    if one:
+        return spec_bin(start, stop, off)
+    raise Unsupported("bins summary: one=False")
+
+
+def digest_summary(interp, args, kwargs):
+    """digest_object(*args): md5 over the string forms; modelled as an uninterpreted value carrying its arguments
+    (only 'equal arguments => equal digest' is ever used)."""
+    from pyvc.values import Opaque
+    return Opaque("UUID", attrs={"$digest_args": (tuple(args), tuple(sorted(kwargs.items())))})
+
+
 SUMMARIES = {
+    "util.bins.bins": bins_summary,
+    "util.hashing.digest_object": digest_summary,
     "sequence.sequence.Sequence.validate_alphabet": validate_alphabet,
     "location.location_impl.EmptyLocation": empty_location,
     "parent.make_parent": make_parent,
@@ -139,6 +171,6 @@ EXTERNALS = {"Bio.Seq.Seq": bio_seq, "re.compile": _re_compile, "re.match": _re_
              "collections.defaultdict": _defaultdict}
 EXTERNAL_CONSTS = {"string.punctuation": _string.punctuation, "re.IGNORECASE": int(_re.IGNORECASE),
                    "re.I": int(_re.IGNORECASE)}
-DEFAULT = ["sequence.sequence.Sequence.validate_alphabet", "parent.make_parent", "location.location_impl.EmptyLocation", "gene.codon.Codon.__new__"]
+DEFAULT = ["util.bins.bins", "util.hashing.digest_object", "sequence.sequence.Sequence.validate_alphabet", "parent.make_parent", "location.location_impl.EmptyLocation", "gene.codon.Codon.__new__"]
 LIB = {"default": DEFAULT, "summaries": SUMMARIES, "loops": LOOPS, "attr_hooks": {}, "externals": EXTERNALS,
        "external_consts": EXTERNAL_CONSTS}
